@@ -34,6 +34,9 @@ STATUS_CODE = {'Infeasible': pulp.LpStatusInfeasible,
                'Not Solved': pulp.LpStatusNotSolved}
 
 
+REAL_CBC_SAFETY_LIMIT = float(os.environ.get('VERIF_CBC_LIMIT', '15'))
+
+
 class HarnessError(Exception):
     """A defect of the harness / stub, never a property violation."""
 
@@ -536,11 +539,30 @@ class SimBackend(object):
                 pert.name = getattr(saved_obj, 'name', None)
                 lp.objective = pert
                 rec['real_tiebreak'] = True
+        # No real solve may outlive the run's wall cap (an orphaned cbc
+        # process would keep a core busy for hours): CBC gets a safety limit;
+        # a solve that hits it is a run that is not judged.
+        user_tl = getattr(solver, 'timeLimit', None)
+        safety = REAL_CBC_SAFETY_LIMIT
+        capped = user_tl is None or user_tl > safety
+        if capped:
+            solver.timeLimit = safety
+            if isinstance(getattr(solver, 'optionsDict', None), dict):
+                solver.optionsDict['timeLimit'] = safety
         try:
             st = _REAL_ACTUAL_SOLVE(solver, lp, **kw)
         finally:
             if saved_obj is not None:
                 lp.objective = saved_obj
+            if capped:
+                solver.timeLimit = user_tl
+                if isinstance(getattr(solver, 'optionsDict', None), dict):
+                    solver.optionsDict['timeLimit'] = user_tl
+        if capped and (lp.sol_status == pulp.LpSolutionIntegerFeasible or
+                       lp.status == pulp.LpStatusNotSolved):
+            rec['backend_fault'] = 'real-cbc-safety-limit'
+            self.fired['real-cbc-safety-limit'] = self.fired.get(
+                'real-cbc-safety-limit', 0) + 1
         rec['status'] = pulp.LpStatus[lp.status]
         rec['real'] = True
         if lp.status == pulp.LpStatusOptimal and \
